@@ -652,7 +652,7 @@ static size_t COVER_ctx_init(COVER_ctx_t *ctx, const void *samplesBuffer,
   /* Maps index to the dmerID */
   ctx->dmerAt = (U32 *)malloc(ctx->suffixSize * sizeof(U32));
   /* The offsets of each file */
-  ctx->offsets = (size_t *)malloc((nbSamples + 1) * sizeof(size_t));
+  ctx->offsets = (size_t *)malloc(((size_t)nbSamples + 1) * sizeof(size_t));   /* nbSamples + 1 wraps for (unsigned)-1 */
   if (!ctx->suffix || !ctx->dmerAt || !ctx->offsets) {
     DISPLAYLEVEL(1, "Failed to allocate scratch buffers\n");
     COVER_ctx_destroy(ctx);
@@ -663,7 +663,7 @@ static size_t COVER_ctx_init(COVER_ctx_t *ctx, const void *samplesBuffer,
 
   /* Fill offsets from the samplesSizes */
   {
-    U32 i;
+    size_t i;
     ctx->offsets[0] = 0;
     for (i = 1; i <= nbSamples; ++i) {
       ctx->offsets[i] = ctx->offsets[i - 1] + samplesSizes[i - 1];
